@@ -15,6 +15,10 @@ VERIF = os.path.dirname(HERE)
 LEAN = os.path.join(VERIF, 'lean')
 DRIVER = os.path.join(LEAN, '.lake', 'build', 'bin', 'driver')
 REPO = os.environ.get('NETADDR_REPO', '/repo')
+if os.environ.get('NETADDR_REPO') and os.environ['NETADDR_REPO'] not in sys.path:
+    # development aid (seeded changes / harmless rewrites are evaluated on a scratch copy): every process that
+    # imports the harness - helper interpreters included - imports netaddr from that copy
+    sys.path.insert(0, os.environ['NETADDR_REPO'])
 
 W = {4: 32, 6: 128, 48: 48, 64: 64}
 
@@ -264,12 +268,37 @@ def value_classes(rng, w, n_random=6):
     for _ in range(n_random):
         out.append(rng.getrandbits(w))
         out.append(rng.getrandbits(rng.randrange(1, w + 1)))
+    if w >= 32:
+        out.extend(sparse_words(rng, w) for _ in range(4))
     return [v & m for v in out]
+
+
+def sparse_words(rng, w):
+    """a value made of 16-bit words (8-bit for w < 64) most of which are all-zero (or, for a quarter of the values,
+    all-one): one to three positions get 0xffff / 1 / 0x8000 / a random word, the low 32 bits are sometimes random.
+    Tests of the form `words[k] == C and not any(words[:j])`, `value >> s == C` with a slice or shift that is one
+    word off are hit here, uniform or boundary values never (a seeded change ignored the fifth hextet)."""
+    ws = 16 if w >= 64 else 8
+    n = w // ws
+    full = (1 << ws) - 1
+    fill = full if rng.random() < 0.25 else 0
+    words = [fill] * n
+    for pos in rng.sample(range(n), rng.choice([1, 2, 2, 3])):
+        words[pos] = rng.choice([full, full, 1, 1 << (ws - 1), rng.getrandbits(ws), full - 1])
+    if rng.random() < 0.4:
+        for pos in range(n - 32 // ws, n):
+            words[pos] = rng.getrandbits(ws)
+    v = 0
+    for x in words:
+        v = (v << ws) | x
+    return v
 
 
 def rand_value(rng, w):
     r = rng.random()
     m = (1 << w) - 1
+    if r < 0.12 and w >= 32:
+        return sparse_words(rng, w)
     if r < 0.25:
         return rng.choice(boundary_values(w))
     if r < 0.5:
